@@ -27,6 +27,8 @@ def run(C, R):
         E = C.engine(cfg)
         CG = C.cg(cfg)
         R.configs.append(cfg)
+        from common import wrapper_discipline
+        R.floor('C12.W wrapper-paths[%s]' % cfg, wrapper_discipline(C, R, cfg, list(STATES), 'C12.W'), 2)
         for st, mode in STATES.items():
             F.adt(st)
             mod = st.rsplit('::', 1)[0] + '::'
